@@ -293,6 +293,7 @@ class Chip:
         self.name = name
         self.plus = plus
         air.chips.append(self)
+        self.spi_base_ns = 4000   # per-transaction MCU + bus overhead
         self.reset()
 
     def reset(self):
@@ -309,6 +310,7 @@ class Chip:
         self.pending_ack = {}  # pipe -> ack entry already attached to an ACK, released on next new packet
         self.rx_since = None
         self.txing_until = 0
+        self.lock_until = 0
         self.feat_unlocked = self.plus
         self.reuse = False
         self.illegal = []     # out-of-range / reserved-bit writes (C03.NoIllegalWrite)
@@ -374,7 +376,7 @@ class Chip:
     # ---- SPI
     def xfer(self, out):
         out = bytes(out)
-        self.s.advance(4000 + 800 * len(out))
+        self.s.advance(self.spi_base_ns + 800 * len(out))
         st = self.status()  # STATUS is shifted out while the command byte is shifted in (datasheet 8.3.1)
         self.last_st = st
         cmd = out[0]
@@ -454,7 +456,8 @@ class Chip:
             if len(self.tx) < 3:
                 self.pid = (self.pid + 1) & 3
                 noack = bool(cmd == 0xB0 and self.feature() & 1)
-                self.tx.append(dict(kind="tx", data=bytes(data[:32]), noack=noack, pid=self.pid))
+                self.nloads = getattr(self, "nloads", 0) + 1
+                self.tx.append(dict(kind="tx", data=bytes(data[:32]), noack=noack, pid=self.pid, load=self.nloads))
                 self.reuse = False
             self.kick()
         elif 0xA8 <= cmd <= 0xAD:  # W_ACK_PAYLOAD
@@ -527,14 +530,26 @@ class Chip:
             return
         t1 = t + self.air_time(len(ent["data"]))
         self.air.occupy(t, t1, self.r[5], self)
-        self.s.at(t1, self.tx_end, ent, t, cyc)
+        # capture model: a receiver that matches the address locks onto the first packet and misses packets
+        # addressed to it that start while it is locked; a radio that is transmitting hears nothing
+        addr, aw = bytes(self.addr[0x10][: self.aw()]), self.aw()
+        locked = []
+        for c in self.air.chips:
+            if c is self or not c.can_hear(t) or c.lock_until > t:
+                continue
+            if c.r[5] != self.r[5] or c.aw() != aw or c.rate() != self.rate() or c.crc_len() != self.crc_len():
+                continue
+            if any(c.r[2] & (1 << p) and c.pipe_addr(p) == addr for p in range(6)):
+                c.lock_until = t1
+                locked.append(c)
+        self.s.at(t1, self.tx_end, ent, t, cyc, locked)
 
-    def tx_end(self, t, ent, t0, cyc):
+    def tx_end(self, t, ent, t0, cyc, locked=None):
         air = self.air
         pkt = dict(addr=bytes(self.addr[0x10][: self.aw()]), ch=self.r[5], pid=ent["pid"], noack=ent["noack"],
                    data=ent["data"], src=self.name, rate=self.rate(), crc=self.crc_len(), aw=self.aw())
         fate = air.next_fate(pkt)
-        if fate != "P" and air.collided(t0, t, pkt["ch"], self):
+        if fate != "P" and air.collisions == "destructive" and air.collided(t0, t, pkt["ch"], self):
             fate = "C"
         want_ack = bool(self.r[1] & 1) and not ent["noack"]
         acked = None
@@ -544,6 +559,8 @@ class Chip:
             for c in air.chips:
                 if c is self or not c.can_hear(t0):
                     continue
+                if locked is not None and c not in locked:
+                    continue        # locked onto another packet (or not matching) when this one started
                 if c.r[5] != pkt["ch"] or c.aw() != pkt["aw"] or c.rate() != pkt["rate"] or c.crc_len() != pkt["crc"]:
                     continue
                 for p in range(6):
@@ -568,7 +585,7 @@ class Chip:
                                 noack=int(pkt["noack"]), data=list(pkt["data"]), fate=fate,
                                 rx=[list(x) for x in rxs], want_ack=int(want_ack),
                                 ack=(None if acked is None else list(acked)), ack_ok=int(ack_ok),
-                                aa0=self.r[1] & 1, cyc=cyc))
+                                aa0=self.r[1] & 1, cyc=cyc, load=ent.get("load", 0)))
         if cyc != self.cycle:
             return  # cycle was ended by FLUSH_TX while the packet was on air
         if not want_ack:
